@@ -82,6 +82,19 @@ def run(ctx):
                         lambda it, P=P: it.call(it.closure_of('bezier.polynomial2bezier'),
                                                 [it.call(it.closure_of('bezier.bezier2polynomial'), [tuple(P)], {'return_poly1d': True})], {}),
                         lambda v, P=P: decide_all_equal([('p%d' % i, v[i], P[i]) for i in range(len(P))]) if len(v) == len(P) else (False, 'length'))
+    # coefficient SEQUENCES (not poly1d) keep their length: a vanishing leading or constant coefficient must not change the degree read off
+    Q = cpoints(3, 'q')
+    special = [('general cubic', cpoints(4)),
+               ('degree-elevated quadratic (cubic coefficient exactly 0)', [Q[0], (Q[0] + 2 * Q[1]) / 3, (2 * Q[1] + Q[2]) / 3, Q[2]]),
+               ('cubic starting at the origin (constant coefficient exactly 0)', [Rat.const(0)] + cpoints(4)[1:]),
+               ('line starting at the origin', [Rat.const(0), cpoints(2)[1]])]
+    for label, P in special:
+        ob('R19.2').run(fp2b, 'polynomial2bezier(coefficient sequence of a %s)' % label,
+                        lambda it, P=P: it.call(it.closure_of('bezier.polynomial2bezier'),
+                                                [it.call(it.closure_of('bezier.bezier2polynomial'), [tuple(P)], {})], {}),
+                        lambda v, P=P: decide_all_equal([('p%d' % i, v[i], P[i]) for i in range(len(P))]) if len(v) == len(P)
+                        else (False, '%d control points returned for %d coefficients' % (len(v), len(P))),
+                        allowed_raises=())
     for n in (1, 5):
         expect_raise(ctx, 'R19.2', fp2b, 'polynomial2bezier(order %d) raises' % (n - 1),
                      lambda it, n=n: it.call(it.closure_of('bezier.polynomial2bezier'), [tuple(cpoints(n, 'c'))], {}),
